@@ -32,6 +32,11 @@ WellFormed(s, w) ==
                    /\ \A i \in 1..Len(f) : /\ p.specs[i].id = f[i].id /\ p.specs[i].len = f[i].len
                                             /\ p.specs[i].entb = BE4(f[i].ent)
                    /\ (Len(s.recs) = 1 => p.next = Len(h.body) + 1)
+                   \* further template records follow back to back
+                   /\ (Len(s.recs) = 2 =>
+                         LET q == ParseTemplateBody(SubSeq(h.body, p.next, Len(h.body))) IN
+                           /\ q.ok /\ q.tid = s.recs[2].tid /\ Len(q.specs) = Len(s.recs[2].fields)
+                           /\ q.next = Len(h.body) - (p.next - 1) + 1)
          ELSE /\ h.setId = s.hdrId
               /\ ExactDecode(h.body, tmpl'[s.hdrId].fields, [i \in 1..Len(s.recs) |-> s.recs[i].vals])
 
